@@ -9,6 +9,7 @@ import (
 	"strings"
 	"sync"
 	"testing"
+	"time"
 
 	"pgregory.net/rapid"
 
@@ -155,6 +156,10 @@ type c18Case struct {
 	RootName   string   `json:"root_name"`
 	Routes     []string `json:"routes"`
 	Concurrent bool     `json:"concurrent"`
+	// DelayMs: pause between successive opens ("again - later": opens in different wall-clock seconds)
+	DelayMs int `json:"delay_ms,omitempty"`
+	// FutureMTimes: some objects carry modification times in the future (clock skew is a real-life thing)
+	FutureMTimes bool `json:"future_mtimes,omitempty"`
 }
 
 func genC18(t *rapid.T) c18Case {
@@ -168,6 +173,22 @@ func genC18(t *rapid.T) c18Case {
 		c.Routes = append(c.Routes, rapid.SampledFrom([]string{"lib", "lib", "net", "makeiso"}).Draw(t, fmt.Sprintf("route%d", i)))
 	}
 	c.Concurrent = rapid.Bool().Draw(t, "concurrent")
+	if !c.Concurrent && rapid.IntRange(0, 5).Draw(t, "delayed") == 0 {
+		c.DelayMs = 1100
+		if len(c.Routes) > 3 {
+			c.Routes = c.Routes[:3]
+		}
+	}
+	if rapid.IntRange(0, 2).Draw(t, "future") == 0 {
+		c.FutureMTimes = true
+		i := 0
+		c.Tree.Walk(func(rel string, n *hx.Node) {
+			i++
+			if rel != "" && n.Kind != "symlink" && i%2 == 0 {
+				n.MTime = 4102444800 + int64(i) // year 2100
+			}
+		})
+	}
 	return c
 }
 
@@ -199,6 +220,9 @@ func runC18(c c18Case, st *hx.Stats) error {
 		wg.Wait()
 	} else {
 		for i, r := range c.Routes {
+			if i > 0 && c.DelayMs > 0 {
+				time.Sleep(time.Duration(c.DelayMs) * time.Millisecond)
+			}
 			imgs[i], errs[i] = fetchImage(fx, c.PS3, r)
 		}
 	}
@@ -211,6 +235,12 @@ func runC18(c c18Case, st *hx.Stats) error {
 	routes := map[string]bool{}
 	for _, r := range c.Routes {
 		routes[r] = true
+	}
+	if c.DelayMs > 0 {
+		st.Label("opens in different wall-clock seconds")
+	}
+	if c.FutureMTimes {
+		st.Label("tree with modification times in the future")
 	}
 	st.Label(fmt.Sprintf("concurrent=%v", c.Concurrent), fmt.Sprintf("ps3=%v", c.PS3), fmt.Sprintf("distinct routes=%d", len(routes)))
 	if imgs[0] == nil {
